@@ -92,7 +92,7 @@ static bool run_fit(const Problem& p, uint32_t monodim, bool shuffled, bool extr
 		if (capi) {
 			::splinetable ct; ct.data = &t; std::vector<const double*> cp, kp; std::vector<uint64_t> nk; for (auto& v : coords) cp.push_back(v.data()); for (auto& v : knots) { kp.push_back(v.data()); nk.push_back(v.size()); }
 			if (splinetable_glamfit(&ct, &data, w.data(), cp.data(), ord.data(), kp.data(), nk.data(), sm.data(), pen.data(), monodim, false) != 0) return false;
-		} else t.fit(data, w, coords, ord, knots, sm, pen, monodim, false);
+		} else t.fit(data, w, coords, ord, knots, sm, pen, monodim, getenv("VERIF_FIT_VERBOSE") != nullptr);
 	} catch (std::exception&) { return false; }
 	coef.assign(t.get_coefficients(), t.get_coefficients() + t.get_ncoeffs());
 	return true;
